@@ -91,7 +91,7 @@ theorem nextEpoch_keeps_champion (o : EpochOpts W) (gen : Int) (p p' p1 : Pop W)
     have hcm := mem_of_head? hc
     obtain ⟨s0, hs0, y, hy, e⟩ := hgen s hs champ hcm
     have hr : C06.RefsOk champ.genome := e ▸ hrefs s0 hs0 y hy
-    exact ⟨champ, hc, reproduce_finalize_has_copy o gen p1 p2 ex rs1 rs2 hu1 hrep s hs champ hc hr hq (hle s hs champ hcm)⟩
+    exact ⟨champ, hc, reproduce_finalize_has_copy o gen p1 p2 ex rs1 rs2 hu1 hrep s hs champ hc hr hq (hle s hs champ hcm).2⟩
 
 /-! ### the executable predicate of the driver -/
 
